@@ -598,10 +598,16 @@ class PathEval:
 
     def truth(self, t):
         if isinstance(t, ast.BoolOp):
-            vals = [self.truth(v) for v in t.values]
-            if isinstance(t.op, ast.And):
-                return False if any(v is False for v in vals) else (None if any(v is None for v in vals) else True)
-            return True if any(v is True for v in vals) else (None if any(v is None for v in vals) else False)
+            # short-circuit evaluation, left to right; the first undecidable operand makes the whole test undecided
+            for v in t.values:
+                r = self.truth(v)
+                if r is None:
+                    return None
+                if isinstance(t.op, ast.And) and r is False:
+                    return False
+                if isinstance(t.op, ast.Or) and r is True:
+                    return True
+            return isinstance(t.op, ast.And)
         if isinstance(t, ast.UnaryOp) and isinstance(t.op, ast.Not):
             v = self.truth(t.operand)
             return None if v is None else (not v)
@@ -629,7 +635,9 @@ class PathEval:
             v = self.other(t, self)
             if v is not None:
                 self.res.assumed.append((self.subst(t), v))
-            return v
+                return v
+        if getattr(self, '_undecided', None) is None:
+            self._undecided = t        # the first atomic test of this statement that could not be decided
         return None
 
     # -- statements ----------------------------------------------------------
@@ -846,13 +854,10 @@ class PathEval:
             if isinstance(s, ast.Delete):
                 return None
             if isinstance(s, ast.If):
+                self._undecided = None
                 v = self.truth(s.test)
-                if v is None and self.other is not None:
-                    v = self.other(s.test, self)
-                    if v is not None:
-                        self.res.assumed.append((self.subst(s.test), v))
                 if v is None:
-                    self.res.unknown, self.res.unknown_test = s, s.test
+                    self.res.unknown, self.res.unknown_test = s, (self._undecided if self._undecided is not None else s.test)
                     return 'end'
                 self.res.tests.append((s.test, v))
                 if self.block(s.body if v else s.orelse):
@@ -865,15 +870,17 @@ class PathEval:
                 val = self.subst(s.value)
                 if isinstance(s.value, ast.BoolOp) and isinstance(s.value.op, ast.Or) and len(s.value.values) == 2:
                     # x = a or b   is   x = a if a else b
+                    self._undecided = None
                     v = self.truth(s.value.values[0])
                     if v is None:
-                        self.res.unknown, self.res.unknown_test = s, s.value.values[0]
+                        self.res.unknown, self.res.unknown_test = s, (self._undecided if self._undecided is not None else s.value.values[0])
                         return 'end'
                     val = self.subst(s.value.values[0] if v else s.value.values[1])
                 if isinstance(s.value, ast.IfExp):
+                    self._undecided = None
                     v = self.truth(s.value.test)
                     if v is None:
-                        self.res.unknown, self.res.unknown_test = s, s.value.test
+                        self.res.unknown, self.res.unknown_test = s, (self._undecided if self._undecided is not None else s.value.test)
                         return 'end'
                     val = self.subst(s.value.body if v else s.value.orelse)
                 if isinstance(tgt, ast.Name):
